@@ -37,10 +37,7 @@ RULE = ("seeded triples per format: reference = rendered record list (values mar
         "parsing a generated file of the format, None removals and unknown keys; a case is "
         "distinct by (format, reference text, old text, new data)")
 
-JUNK_MARK = "JUNKJUNK"
-JUNK_LINE = {"properties": JUNK_MARK + " line\n", "dtd": "<!ENTITY " + JUNK_MARK + ">\n",
-             "ini": JUNK_MARK + "\n", "inc": JUNK_MARK + "\n", "ftl": JUNK_MARK + "\n",
-             "android": '  <plurals name="' + JUNK_MARK + '"></plurals>\n'}
+from harness.props.c15 import JUNK_MARK, JUNK_LINE, mutate  # noqa: E402
 
 
 def serialize_impl(name, ref, old, new_data):
@@ -245,29 +242,6 @@ def oracle_serialize(chk, case, ref, out_text):
     if any(ckind(e) == K_JUNK for e in e2) or entity_list(fmt, e2) != got:
         chk.fail(classify(case, "serialize-idempotent"), desc,
                  {"output": out_text, "second": again})
-
-
-def mutate(rng, text, fmt):
-    lines = text.splitlines(True)
-    for _ in range(rng.randint(1, 3)):
-        r = rng.random()
-        if r < 0.3 and lines:
-            lines.insert(rng.randint(0, len(lines)), rng.choice(lines))     # duplicate a line
-        elif r < 0.5 and lines:
-            del lines[rng.randrange(len(lines))]
-        elif r < 0.7:
-            lines.insert(rng.randint(0, len(lines)), JUNK_LINE[fmt])
-        elif r < 0.85 and lines:
-            i = rng.randrange(len(lines))
-            if lines[i]:
-                j = rng.randrange(len(lines[i]))
-                lines[i] = lines[i][:j] + lines[i][j + 1:]
-        else:
-            lines.insert(rng.randint(0, len(lines)), rng.choice(["\n", "  \n", "\n\n"]))
-    text = "".join(lines)
-    if rng.random() < 0.2:
-        text = text.rstrip("\n")
-    return text
 
 
 WITNESSES = [
